@@ -590,6 +590,7 @@ func init() {
 	s["(time.Time).Round"] = s["(time.Time).UTC"]
 	s["(time.Time).Format"] = func(in *Interp, fr *frame, a []Value) Value { return "<time>" }
 	s["(time.Time).String"] = s["(time.Time).Format"]
+	s["(time.Duration).String"] = func(in *Interp, fr *frame, a []Value) Value { return "<duration>" }
 	s["(time.Time).MarshalJSON"] = func(in *Interp, fr *frame, a []Value) Value {
 		panic(unsupported("time.MarshalJSON"))
 	}
